@@ -21,9 +21,9 @@ pub fn geometry(class: &str, r: &mut StdRng) -> Parameters {
     let mut p = params(l(r, 0.05, 0.4), 0.0, 0.0, l(r, 0.3, 0.7), l(r, 0.4, 0.9), l(r, 0.4, 0.9), l(r, 0.05, 0.2));
     match class {
         "b-nonzero" => { p.b = l(r, 0.02, 0.2) * if r.gen_bool(0.5) { 1.0 } else { -1.0 }; p.a2 = l(r, -0.1, 0.1); }
-        "a2-positive" => p.a2 = l(r, 0.02, 0.2),
-        "a2-negative" => p.a2 = -l(r, 0.02, 0.2),
-        "a1-negative" => { p.a1 = -l(r, 0.05, 0.3); p.a2 = -l(r, 0.0, 0.1); }
+        "a2-positive" => { p.a2 = l(r, 0.02, 0.2); if r.gen_bool(0.5) { p.b = l(r, -0.15, 0.15); } }
+        "a2-negative" => { p.a2 = -l(r, 0.02, 0.2); if r.gen_bool(0.5) { p.b = l(r, -0.15, 0.15); } }
+        "a1-negative" => { p.a1 = -l(r, 0.05, 0.3); p.a2 = -l(r, 0.0, 0.1); if r.gen_bool(0.5) { p.b = l(r, -0.15, 0.15); } }
         "a1-zero" => { p.a1 = 0.0; p.a2 = l(r, -0.1, 0.1); }
         "c4-zero" => { p.c4 = 0.0; p.a2 = l(r, -0.1, 0.1); if r.gen_bool(0.5) { p.b = l(r, -0.1, 0.1); } }
         "c1-zero" => { p.c1 = 0.0; p.b = l(r, -0.15, 0.15); }
